@@ -111,6 +111,29 @@ impl<'a, 'd> G<'a, 'd> {
     fn spawn(&mut self, depth: u32) -> Stmt {
         self.spawns += 1;
         let who = format!("g{}_", self.spawns);
+        // `go f` with a top-level function instead of a closure literal: it captures nothing,
+        // so it can only print
+        if self.d.chance(60) {
+            let idx = self.p.fns.len() + 1; // main is pushed last, at index 0 + helpers: fixed up below
+            let _ = idx;
+            let n = 1 + self.d.below(2);
+            let mut body = vec![];
+            for k in 0..n {
+                body.push(Stmt::Expr(
+                    Expr::Call(Callee::Builtin(Builtin::Println), vec![Expr::Str(format!("{who}w{k}"))]),
+                    false,
+                ));
+            }
+            self.p.fns.push(FnDef {
+                name: format!("worker{}", self.spawns),
+                tparams: 0,
+                params: vec![],
+                ret: Ty::Unit,
+                body: Expr::Block(body, Some(Box::new(Expr::Unit))),
+            });
+            let f = self.p.fns.len() - 1;
+            return Stmt::Expr(Expr::Go(Box::new(Expr::FnRef(f))), true);
+        }
         let n = 1 + self.d.below(2);
         let mut body = vec![];
         for _ in 0..n {
@@ -168,7 +191,7 @@ pub fn gen_go_program(d: &mut Dec) -> GProg {
         ret: Ty::Unit,
         body: Expr::Block(stmts, Some(Box::new(Expr::Unit))),
     });
-    g.p.main = 0;
+    g.p.main = g.p.fns.len() - 1;
     g.p
 }
 
